@@ -155,6 +155,10 @@ def run_in_process(spec, cls, scenario, known, emit):
     import gc
     gc.disable()
     ctx = RunContext(spec, cls, scenario, known)
+    if scenario.get("_optimize"):
+        from . import boot
+        boot.reimport_optimized()
+        ctx.probe("interpreter_optimize_1")
 
     def emergency(verdict, sched):
         # called from a task thread when the scheduler ends the run
@@ -306,6 +310,10 @@ def make_scenario(spec, cls, verif_seed, index, depth=1):
         # client threads started with _thread.start_new_thread: unknown to
         # the threading module (threading.active_count() == 1 throughout)
         st["raw"] = True
+    if rng.random() < getattr(spec, "OPTIMIZE_P", 0.03):
+        # interpreter configuration: the library compiled as under
+        # ``python -O`` (assert statements removed) for this run
+        sc["_optimize"] = 1
     sc["_seed"] = seed
     sc["_index"] = index
     sc["_cls"] = cls
